@@ -30,6 +30,10 @@ def master_seed():
     return int(os.environ.get("VERIF_SEED", DEFAULT_SEED))
 
 
+def survey_mode_on():
+    return os.environ.get("VERIF_SURVEY") == "1"
+
+
 def rng_for(master, check, i):
     return random.Random("%d/%s/%d" % (master, check, i))
 
@@ -361,7 +365,9 @@ def run_check(name, tier):
     if harness:
         print("HARNESS-ERROR in %d runs; first (run %d):\n%s" % (len(harness), harness[0]["i"],
                                                                    harness[0]["harness_error"]))
-        return 2
+        # a violation that was reported (and minimised, with its replay file) stands on its own; without one the run
+        # decides nothing and the exit status says so
+        return 1 if (exit_code == 1 and not survey_mode_on()) else 2
     if survey:
         for k, n in sorted(survey.items(), key=lambda kv: -kv[1]):
             print("SURVEY %5d %s %s %s   e.g. run %d: %s" % (n, k[0], k[1], k[2], survey_ex[k][0], survey_ex[k][1][:150]))
